@@ -568,6 +568,9 @@ pub struct GenKnobs {
     /// per member slot: chance of an extra junk member (recovered syntax error)
     pub p_junk: u32,
     pub p_crlf: u32,
+    /// non-ASCII text in the banner comment and in a string constant; block comments between members
+    pub p_unicode: u32,
+    pub p_block_comments: u32,
     /// imports that extend a key by one segment, or are a prefix of a key
     pub p_nested_import: u32,
 }
@@ -590,6 +593,8 @@ impl GenKnobs {
             p_heavy: *rng.pick(&[0, 0, 8, 30]),
             p_junk: *rng.pick(&[0, 0, 12, 35]),
             p_crlf: *rng.pick(&[0, 0, 15, 50]),
+            p_unicode: *rng.pick(&[0, 0, 10, 30]),
+            p_block_comments: *rng.pick(&[0, 0, 15, 40]),
             p_nested_import: *rng.pick(&[0, 8, 25]),
         }
     }
@@ -975,6 +980,26 @@ pub fn gen_doc(
             }
         }
     }
+    let unicode = rng.pct(k.p_unicode);
+    if unicode && kind != Kind::Enum {
+        members.push(Member::Const {
+            ty: Ty::Str,
+            name: "U".to_owned(),
+            value: "\"caf\u{e9} 10\u{20ac}\"".to_owned(),
+            doc: None,
+        });
+    }
+    if rng.pct(k.p_block_comments) {
+        // comments and odd white space between members (they render as members that are only trivia)
+        let n = rng.range(1, 3);
+        for _ in 0..n {
+            let at = rng.below(members.len() + 1);
+            members.insert(
+                at,
+                Member::Junk(rng.pick(&["/* block */", "/* multi\n   line */", "// line comment\n", "\t\t", "/*a*//*b*/"]).to_string()),
+            );
+        }
+    }
     Doc {
         pkg: pkg.to_owned(),
         imports,
@@ -988,7 +1013,9 @@ pub fn gen_doc(
         serial,
         header_one_line: rng.pct(k.p_header_one_line),
         members_one_line: rng.pct(k.p_members_one_line),
-        banner: if rng.pct(10) {
+        banner: if unicode {
+            Some("g\u{e9}n\u{e9}r\u{e9} \u{fc}ber \u{6f22}\u{5b57} \u{1f600}".to_owned())
+        } else if rng.pct(10) {
             Some("generated".to_owned())
         } else {
             None
@@ -1027,9 +1054,12 @@ pub fn gen_malformed(rng: &mut Rng, base: &Doc) -> String {
             toks.concat()
         }
         4 => {
-            // cut at a random byte (ASCII, so any index is a boundary)
-            let at = rng.below(text.len().max(1));
-            text[..at.min(text.len())].to_owned()
+            // cut at a random character boundary
+            let mut at = rng.below(text.len().max(1)).min(text.len());
+            while !text.is_char_boundary(at) {
+                at -= 1;
+            }
+            text[..at].to_owned()
         }
         7 | 8 => {
             // several recovered element errors, then an item that never closes: no tree, many diagnostics
@@ -1066,12 +1096,17 @@ pub fn gen_malformed(rng: &mut Rng, base: &Doc) -> String {
         }
         _ => {
             // replace a random character by a character that starts no token
-            let mut b = text.into_bytes();
-            if !b.is_empty() {
-                let i = rng.below(b.len());
-                b[i] = *rng.pick(&[b'#', b'$', b'%', b'?', b'`', b'~']);
+            let chars: Vec<char> = text.chars().collect();
+            if chars.is_empty() {
+                return text;
             }
-            String::from_utf8(b).unwrap()
+            let i = rng.below(chars.len());
+            let r = *rng.pick(&['#', '$', '%', '?', '`', '~']);
+            chars
+                .iter()
+                .enumerate()
+                .map(|(j, c)| if i == j { r } else { *c })
+                .collect()
         }
     }
 }
